@@ -7,25 +7,6 @@ import os
 from tools import sim, vlib
 
 
-def alt_repo_crate():
-    """HV_REPO=<other checkout>: build the harness against that tree instead of /repo, from a
-    generated copy of the crate manifest (harness/h_sim/alt, sources symlinked) into its own
-    target group; returns (crate, group) or None"""
-    repo = os.environ.get("HV_REPO")
-    if not repo or os.path.realpath(repo) == "/repo":
-        return None
-    base = os.path.join(vlib.ROOT, "harness", "h_sim")
-    alt = os.path.join(base, "alt")
-    os.makedirs(alt, exist_ok=True)
-    toml = open(os.path.join(base, "Cargo.toml")).read()
-    toml = toml.replace('"/repo/', '"%s/' % repo.rstrip("/")).replace('"../hvcommon"', '"../../hvcommon"')
-    with open(os.path.join(alt, "Cargo.toml"), "w") as f:
-        f.write(toml)
-    if not os.path.lexists(os.path.join(alt, "src")):
-        os.symlink("../src", os.path.join(alt, "src"))
-    return "h_sim/alt", "hydro-alt"
-
-
 class SimSpec(vlib.Spec):
     """shared by C36 (and reused by C37/C38 for the correspondence part)"""
     model_vo = ["theories/Sim/Run.vo", "theories/Sim/ModelTop.vo"]
@@ -273,8 +254,4 @@ class C36(SimSpec):
 def main(ctx):
     spec = C36()
     spec.ctx = ctx
-    alt = alt_repo_crate()
-    if alt:
-        spec.crate, spec.group = alt
-        ctx.log("HV_REPO set: harness built against", os.environ["HV_REPO"])
     vlib.standard_check(ctx, spec)
